@@ -8,6 +8,9 @@
 // in between both are accepted. A crash of the host is never accepted. The leak oracle runs a
 // loop body k and 4k times under small limits: both complete, nothing is left behind and the
 // high-water marks do not grow with the iteration count.
+//
+// families.go holds the recursion shapes (what the recursion cycle is made of) and the generated
+// iteration bodies which leave an unfinished expression (operand context x exit kind x shape x loop).
 package c09
 
 import (
@@ -33,7 +36,8 @@ func (c09) Info(tier string) fw.Info {
 	return fw.Info{
 		Level: "exploration",
 		Rule: "parametric families rec(d) (call depth), nest(n) (operand nesting: right-nested sums, list literals, call arguments), locals(l,d) (locals per frame x depth) with parameters below/at/just above/far above each limit, x limit triples from {4,16,64,500}^3 on the VM and call limits {4,64,1000} on the interpreter; " +
-			"plus iter(k, body) for ~45 loop bodies run k and 4k times under small limits (leak oracle: residue 0 and equal high-water marks). Demands are measured with the step hook under huge limits; non-trivial = a limit was actually decisive (demand within overshoot of a limit, or exceeded) or a leak comparison was made; distinct = (program, limits)",
+			"recursion shapes (mutual, call in argument position, under try, through a function literal; interpreter only: cycles made of capturing function literals reaching themselves through a list / an object / each other / a named function / with a builtin on every level) around each call limit; " +
+			"plus iter(k, body) for ~45 loop bodies and for generated bodies {~40 operand contexts: right operands, compound and place assignments, index, list/object literal elements, range end, arguments of named functions, function values, host-provided globals and member functions, try/match/if/loop in operand position} x {continue, break, return, throw} x {shape of the leaving expression} x {kind of loop left} (thorough: complete product, quick: two seed-rotated shape/loop combinations per context x exit), run k and 4k times under small limits (leak oracle: residue 0 and equal high-water marks). Demands are measured with the step hook under huge limits; non-trivial = a limit was actually decisive (demand within overshoot of a limit, or exceeded) or a leak comparison was made; distinct = (program, limits)",
 		Assumptions: []string{
 			"overshoot bound = 50 entries: the limits are checked once per 50-instruction cycle",
 			"host memory exhaustion through data growth (huge lists/strings) is not a configured limit and not covered",
@@ -131,11 +135,6 @@ func iterProgram(b body, k int) string {
 
 func familyProgram(p Payload) string {
 	switch p.Family {
-	case "rec":
-		return fmt.Sprintf("fn r(n: int) -> int { if n <= 0 { 0 } else { 1 + r(n - 1) } }\nfn main() { println(r(%d)); }\n", p.A)
-	case "rec-val":
-		// every call goes through a function value
-		return fmt.Sprintf("fn r(n: int) -> int { let f = r; if n <= 0 { 0 } else { 1 + f(n - 1) } }\nfn main() { let g = r; println(g(%d)); }\n", p.A)
 	case "nest-sum":
 		return "fn main() { println(" + strings.Repeat("1 + (", p.A) + "1" + strings.Repeat(")", p.A) + "); }\n"
 	case "nest-list":
@@ -163,8 +162,14 @@ func familyProgram(p Payload) string {
 				return iterProgram(b, p.A)
 			}
 		}
+		if b, ok := exitBody(p.Body); ok {
+			return iterProgram(b, p.A)
+		}
 	}
-	panic("c09: unknown family " + p.Family)
+	if rf, ok := recFamilies[p.Family]; ok {
+		return rf.program(p.A)
+	}
+	panic("c09: unknown family " + p.Family + "/" + p.Body)
 }
 
 func (c09) Cases(tier string, seed uint64) []fw.Case {
@@ -217,6 +222,32 @@ func (c09) Cases(tier string, seed uint64) []fw.Case {
 			}
 		}
 	}
+	// recursion shapes: the cycle goes through other kinds of callables. The VM sweep of these is
+	// reduced to the call limit (operand stack and memory generous or medium); the oracle is the same.
+	for _, fam := range recFamilyNames(true) {
+		rf := recFamilies[fam]
+		if !rf.treeOnly {
+			for _, lc := range lims {
+				for _, sm := range [][2]uint{{500, 500}, {64, 500}, {500, 64}} {
+					if !thorough && sm[1] == 64 {
+						continue
+					}
+					for _, d := range around(lc) {
+						if d /= rf.perLevel; d > 0 {
+							add(Payload{Family: fam, A: d, Lc: lc, Ls: sm[0], Lm: sm[1]})
+						}
+					}
+				}
+			}
+		}
+		for _, lc := range []uint{4, 64, 1000} {
+			for _, d := range []int{1, int(lc) / 2, int(lc) - 6, int(lc) + 6, int(lc) * 3} {
+				if d /= rf.perLevel; d > 0 {
+					add(Payload{Family: fam, A: d, Tree: lc})
+				}
+			}
+		}
+	}
 	// leak oracle
 	k := 2000
 	if thorough {
@@ -225,6 +256,15 @@ func (c09) Cases(tier string, seed uint64) []fw.Case {
 	for _, b := range bodies {
 		add(Payload{Family: "iter", Body: b.name, A: k, Lc: 16, Ls: 32, Lm: 64}, b.tags...)
 		add(Payload{Family: "iter", Body: b.name, A: k / 10, Lc: 8, Ls: 16, Lm: 32, Tree: 32}, b.tags...)
+	}
+	// leaving an unfinished expression (operands pending) by continue / break / return / throw
+	kx := 300
+	if thorough {
+		kx = 900
+	}
+	for _, name := range exitBodyNames(thorough, seed) {
+		add(Payload{Family: "iter", Body: name, A: kx, Lc: 16, Ls: 32, Lm: 64}, "exit-from-expr-context")
+		add(Payload{Family: "iter", Body: name, A: kx / 3, Lc: 8, Ls: 16, Lm: 32, Tree: 32}, "exit-from-expr-context")
 	}
 	return cases
 }
@@ -303,7 +343,7 @@ func (c09) Run(c fw.Case) fw.Result {
 		ao4 := drive.Analyze(src4, "main", true)
 		prog4, _ := drive.Compile(ao4.Modules, "main")
 		run4 := drive.RunCompiled(prog4, src4, drive.VMOpts{Limits: lim, StepBudget: 800_000_000}, nil)
-		res.Cover = append(res.Cover, "body:"+p.Body)
+		res.Cover = append(res.Cover, bodyCover("body:", p.Body)...)
 		// demands must not grow with the iteration count (measured under huge limits)
 		ref4 := drive.RunCompiled(prog4, src4, drive.VMOpts{Limits: huge, StepBudget: 800_000_000}, nil)
 		if ref4.Outcome.Class != "ok" {
@@ -341,18 +381,21 @@ func runTree(p Payload, ao drive.AnalyzeOut, src drive.Sources, res *fw.Result, 
 	tr := drive.RunTree(ao.Modules, src, "main", drive.TreeOpts{CallLimit: p.Tree, StepBudget: 400_000_000})
 	o := tr.Outcome
 	res.Nontrivial = true
-	switch p.Family {
-	case "rec", "rec-val":
-		// r(d) needs d+2 nested user calls (main, r x (d+1)); builtins add at most one more level
-		need := p.A + 2
+	rf, isRec := recFamilies[p.Family]
+	switch {
+	case isRec:
+		// r(d) needs 2 + perLevel*d nested user calls (main, r(0), perLevel calls per level);
+		// builtins add at most one more level
+		need := 2 + rf.perLevel*p.A
+		res.Cover = append(res.Cover, "tree-family:"+p.Family)
 		switch {
 		case need+3 <= int(p.Tree) && o.Class != "ok":
 			fail("tree:stopped-within-limits:"+o.Class+"/"+o.Kind, fmt.Sprintf("call depth %d is within the call limit %d but the run ended with %s", need, p.Tree, o))
 		case need > int(p.Tree)+3 && !(o.Class == "fatal" && o.Kind == "StackOverFlow"):
 			fail("tree:limit-not-enforced:"+o.Class+"/"+o.Kind, fmt.Sprintf("call depth %d exceeds the call limit %d but the run ended with %s", need, p.Tree, o))
 		}
-	case "iter":
-		res.Cover = append(res.Cover, "tree-body:"+p.Body)
+	case p.Family == "iter":
+		res.Cover = append(res.Cover, bodyCover("tree-body:", p.Body)...)
 		if o.Class != "ok" {
 			fail("tree:leak:stopped:"+o.Class+"/"+o.Kind, fmt.Sprintf("%d iterations of a bounded-depth body under call limit %d ended with %s", p.A, p.Tree, o))
 		}
@@ -368,4 +411,14 @@ func (c09) OnCrash(c fw.Case, cr fw.Crash) fw.Result {
 	return fw.Result{Verdict: fw.Violated, Nontrivial: true,
 		Sig: fmt.Sprintf("crash:%s:%s:%s", cr.Kind, util.NormPanic(cr.Message), cr.TopFrame),
 		Why: fmt.Sprintf("the host process died (%s: %s) at %s for %+v\n%s", cr.Kind, util.Clip(cr.Message, 300), cr.TopFrame, p, util.Clip(familyProgram(p), 800))}
+}
+
+// bodyCover: coverage keys of an iteration body (the generated exit bodies are counted per coordinate).
+func bodyCover(prefix, name string) []string {
+	if strings.HasPrefix(name, "x:") {
+		if f := strings.Split(name[2:], "/"); len(f) == 4 {
+			return []string{prefix + "x:ctx:" + f[0], prefix + "x:exit:" + f[1] + "/" + f[2] + "/" + f[3]}
+		}
+	}
+	return []string{prefix + name}
 }
